@@ -379,7 +379,7 @@ def gen_base(prop, seed, tier):
     if kind == 'mia':
         scn['mia'] = {'lo': 0, 'hi': r.choice([16, 64, 600]), 'bins': r.choice([3, 6])}
         mr = rng.stream(seed, 'miawide')
-        if prop == 'C02' and mr.random() < 0.4:
+        if mr.random() < (0.4 if prop == 'C02' else 0.3):
             # MIA bins the raw sample values and keeps counts in `precision` (any dtype; the standalone default is uint32): samples stored
             # wider than the precision, with fractional values, must reach the histogram unchanged
             scn['tdtype'] = 'float64'
@@ -994,7 +994,8 @@ def _check_convergence(scn, scared, att, rec, sf, EE, DD, cols_after_run, probes
         return compare.bitwise(x, y) if tol is None else compare.close(x, y, tol)
 
     # columns are judged in the requested precision (not in whatever dtype the trace happens to be stored in)
-    cdt = np.dtype(scn['precision']) if np.dtype(scn['precision']).kind == 'f' else ct.dtype
+    # (an integer precision - MIA keeps counts - does not type the scores: they are float64 whatever the stored array says)
+    cdt = np.dtype(scn['precision']) if np.dtype(scn['precision']).kind == 'f' else np.dtype('float64')
     ct = np.asarray(ct).astype(cdt)
     if not same(ct[..., -1], np.asarray(att.scores).astype(cdt)):
         return viol('last_column_not_final_scores', [prop, 'last_column_not_final_scores', scn['kind']], 'last column differs from scores')
